@@ -31,7 +31,7 @@ pub fn level_of(id: &str) -> &'static str {
 /// Replays every committed regression file `replays/<ID>/regress_*.json` (shrunk failures of
 /// defects that were repaired, or hand-minimised inputs) before the generated search starts.
 pub fn run_regressions(id: &str, ctx: &mut Ctx) {
-    let dir = format!("{}/replays/{}", crate::ctx::VERIF_DIR, id);
+    let dir = format!("{}/replays/{}", crate::ctx::verif_dir(), id);
     let mut files: Vec<_> = match std::fs::read_dir(&dir) {
         Ok(d) => d.filter_map(|e| e.ok()).map(|e| e.path()).collect(),
         Err(_) => return,
